@@ -1062,3 +1062,88 @@ def _native_struct_attr(name):
 
 NATIVE_MODELS[(_struct.Struct, "unpack", "inst")] = _native_struct_attr("unpack")
 NATIVE_MODELS[(_struct.Struct, "pack", "inst")] = _native_struct_attr("pack")
+
+
+# ------------------------------------------------------------------ getattr / hasattr with a constant attribute name
+def m_getattr(ctx, args, kw):
+    if kw or len(args) not in (2, 3):
+        raise Undecided("getattr call shape")
+    name = simplify_native(args[1])
+    if isinstance(name, SStr) and name.native() is not None:
+        name = name.native()
+    if not isinstance(name, str):
+        raise Undecided("getattr with a computed attribute name")
+    try:
+        return ctx.getattr(args[0], name)
+    except PyRaise as e:
+        if len(args) == 3 and isinstance(e.exc_cls, type) and issubclass(e.exc_cls, AttributeError):
+            return args[2]
+        raise
+
+
+NATIVE_MODELS[getattr] = m_getattr
+
+
+# ------------------------------------------------------------------ iteration helpers over heap lists / concrete shapes
+import functools as _functools
+
+
+def m_enumerate(ctx, args, kw):
+    start = simplify_native(kw.get("start", args[1] if len(args) > 1 else 0))
+    if set(kw) - {"start"} or len(args) > 2 or not isinstance(start, int):
+        raise Undecided("enumerate call shape")
+    return [(start + i, x) for i, x in enumerate(E.iterate(ctx, args[0]))]
+
+
+def m_zip(ctx, args, kw):
+    if set(kw) - {"strict"}:
+        raise Undecided("zip call shape")
+    cols = [E.iterate(ctx, a) for a in args]
+    if kw.get("strict") and len({len(c) for c in cols}) > 1:
+        raise PyRaise(ValueError, "zip() arguments have different lengths")
+    return [tuple(t) for t in zip(*cols)]
+
+
+def m_reversed(ctx, args, kw):
+    if kw or len(args) != 1:
+        raise Undecided("reversed call shape")
+    return list(reversed(E.iterate(ctx, args[0])))
+
+
+def m_reduce(ctx, args, kw):
+    if kw or len(args) not in (2, 3):
+        raise Undecided("reduce call shape")
+    items = E.iterate(ctx, args[1])
+    if len(args) == 3:
+        acc = args[2]
+    else:
+        if not items:
+            raise PyRaise(TypeError, "reduce() of empty iterable with no initial value")
+        acc, items = items[0], items[1:]
+    for x in items:
+        acc = ctx.call_value(args[0], [acc, x], {})
+    return acc
+
+
+for _f, _m in ((enumerate, m_enumerate), (zip, m_zip), (reversed, m_reversed), (_functools.reduce, m_reduce)):
+    NATIVE_MODELS[_f] = _m
+
+
+def m_next(ctx, args, kw):
+    if kw or len(args) not in (1, 2):
+        raise Undecided("next call shape")
+    it = args[0]
+    if isinstance(it, E.GenTuple):
+        if it.pos < len(it):
+            it.pos += 1
+            return it[it.pos - 1]
+        if len(args) == 2:
+            return args[1]
+        raise PyRaise(StopIteration)
+    if isinstance(it, (tuple, list, str, bytes, dict)) or isinstance(it, E.Ref):
+        raise PyRaise(TypeError, "object is not an iterator")
+    raise Undecided("next() of " + type(it).__name__)
+
+
+m_next.always = True
+NATIVE_MODELS[next] = m_next
